@@ -52,12 +52,15 @@ structure Facts where
   calleePkg : Option String       -- `FindSafeCalleePkg`
   sigRecv : String := ""          -- `ReceiverStr(Signature().Recv().Type())`, "" without receiver
   aliases : List (Option String × String) := []
-    -- per label of `pointer.Queries[Call.Value]`: (`FindValuePackage`, `Value().Name()`)
+    -- per label of `pointer.Queries[Call.Value]`: (package path of the labelled function if `FindValuePackage`
+    -- finds one, `Value().Name()`)
   deriving DecidableEq, Repr, Inhabited
 
 /-- `IsEntrypointNode` on a call instruction: the identifiers handed to the predicate (the Go code stops
-at the first one accepted; as a disjunction that is `List.any`).  `withPtr`: a pointer result is passed. -/
-def entryCids (withPtr : Bool) (f : Facts) : List CodeId :=
+at the first one accepted; as a disjunction that is `List.any`).  `withPtr`: a pointer result is passed.
+`aliasPrefix`: `FindValuePackage` renders the package of an alias label with `ssa.Package.String()`, i.e.
+"package <path>" — the prefix is observed from the real identifiers on every run ("" once the path is used). -/
+def entryCids (withPtr : Bool) (aliasPrefix : String) (f : Facts) : List CodeId :=
   match f.kind with
   | .go | .defer => []          -- no case for *ssa.Go / *ssa.Defer in the type switch
   | .call =>
@@ -70,7 +73,7 @@ def entryCids (withPtr : Bool) (f : Facts) : List CodeId :=
         | some p => [{ ctx := f.parent, pkg := p, meth := f.valueName }]
         | none => []) ++
       (if withPtr then
-        f.aliases.filterMap fun a => a.1.map fun p => ({ pkg := p, meth := a.2 } : CodeId)
+        f.aliases.filterMap fun a => a.1.map fun p => ({ pkg := aliasPrefix ++ p, meth := a.2 } : CodeId)
        else [])
 
 /-- `IsMatchingCodeIDWithCallee(oracle, callee, instr)` for Call / Go / Defer; `calleePkg` is
@@ -160,6 +163,7 @@ structure Site where
   ifaceType : String := ""       -- invoke: `types.TypeString` of the interface type
   addrTaken : Bool := false      -- static function that is also used as a value somewhere
   wrapperName : String := ""     -- bound / thunk / generic instance: name of the synthetic function
+  aliasPrefix : String := "package "   -- see `entryCids`
   deriving DecidableEq, Repr, Inhabited
 
 /-- x/tools SSA form of every call form (checked against the dump of the real SSA for every site) -/
@@ -168,7 +172,7 @@ def factsOf (s : Site) : Facts :=
   | .staticFn =>
     { kind := s.kind, parent := s.parent, instr := s.instr, isInvoke := false, valueName := s.callee.name,
       calleePkg := some s.callee.pkgPath,
-      aliases := if s.addrTaken then [(some ("package " ++ s.callee.pkgPath), s.callee.name)] else [] }
+      aliases := if s.addrTaken then [(some s.callee.pkgPath, s.callee.name)] else [] }
   | .staticMethod =>
     { kind := s.kind, parent := s.parent, instr := s.instr, isInvoke := false, valueName := s.callee.name,
       calleePkg := some s.callee.pkgPath, sigRecv := s.callee.recv }
@@ -178,7 +182,7 @@ def factsOf (s : Site) : Facts :=
   | .funcValue =>
     { kind := s.kind, parent := s.parent, instr := s.instr, isInvoke := false, valueName := s.reg,
       calleePkg := none,
-      aliases := s.impls.map fun c => (some ("package " ++ c.pkgPath), c.name) }
+      aliases := s.impls.map fun c => (some c.pkgPath, c.name) }
   | .boundMethod =>
     { kind := s.kind, parent := s.parent, instr := s.instr, isInvoke := false, valueName := s.reg,
       calleePkg := none, aliases := [(none, s.wrapperName)] }
@@ -188,14 +192,14 @@ def factsOf (s : Site) : Facts :=
   | .closureCall =>
     { kind := s.kind, parent := s.parent, instr := s.instr, isInvoke := false, valueName := s.reg,
       calleePkg := some s.callee.pkgPath,
-      aliases := [(some ("package " ++ s.callee.pkgPath), s.callee.name)] }
+      aliases := [(some s.callee.pkgPath, s.callee.name)] }
   | .generic =>
     { kind := s.kind, parent := s.parent, instr := s.instr, isInvoke := false, valueName := s.wrapperName,
       calleePkg := none }
 
 /-- is the site an analysis entry point (source / backtrace point) for one of the specifications -/
 def isEntry (specs : List CodeId) (s : Site) : Bool :=
-  (entryCids true (factsOf s)).any fun cid => specs.any fun sp => matchB sp cid
+  (entryCids true s.aliasPrefix (factsOf s)).any fun cid => specs.any fun sp => matchB sp cid
 
 /-- is the call, with the callee `c` resolved for it, a sink / sanitizer / validator -/
 def isSink (specs : List CodeId) (s : Site) (c : Fn) : Bool :=
